@@ -11,6 +11,9 @@
 #include "util/ObjectPool.h"
 #include "util/OutputPrinter.h"
 #include "util/PointerAndBits.h"
+#ifdef MUSCLE_VERIF_HOOKS
+# include "support/VerifHooks.h"
+#endif
 #include "system/AtomicCounter.h"
 
 namespace muscle {
@@ -512,6 +515,9 @@ private:
       {
          if (item->DecrementRefCount())  // don't combine if's
          {
+#ifdef MUSCLE_VERIF_HOOKS
+            MUSCLE_VERIF_POINT(MVH_REFCOUNT_HIT_ZERO, item, 0);
+#endif
             if (allowDelete)             // don't combine if's
             {
                // special annotation to help helgrind understand what we're doing here
